@@ -92,6 +92,8 @@ func c12Families() []gram.Named {
 		// a quoted string that is the alias of no token is an undefined symbol, too (in the middle and at the end of a rule)
 		{"undefined-string-in-the-middle", gram.Parse("S", abc, `S: TA "=>" TB`)},
 		{"undefined-string-at-the-end", gram.Parse("S", abc, `S: TA | S TB ","`)},
+		// nonterminals spelled like keywords of the target languages (their names appear in comments and texts only)
+		{"nonterminals-named-like-keywords", typed(gram.Parse("unit", abc, "unit: import type | unit type ; import: TA ; type: TB | type TC ; func: TA ; var: TB"), "unit")},
 		{"all-terminal-chain", gram.Parse("S", abc, "S: A TA ; A: B TB ; B: TC")},
 		// a token declared first without a number and numbered by a later line (the idiom of the shipped
 		// examples), next to several automatically numbered tokens: the automatic numbers must keep clear of it
@@ -168,6 +170,22 @@ func c12Eval(w *Worker, c *GCase) {
 				kind = "usable-grammar-not-terminating"
 			}
 			w.Violate("C12|"+kind+"|"+key, fmt.Sprintf("%s: grammar [%s] is well-formed (all symbols defined, all nonterminals productive) but yaccgo answers: %s", kind, key, res.Diag()), c, detail)
+			return
+		}
+		// the generators must process a usable family grammar, too (each has checks of its own behind the
+		// common front end)
+		if strings.HasPrefix(c.Origin, "family:") && !strings.HasPrefix(c.Origin, "family:states-") && c.Spec.HasUnion {
+			for _, lang := range []string{"go", "typescript"} {
+				out := filepath.Join(w.Scratch, fmt.Sprintf("c12-%d.out", w.Shard))
+				os.Remove(out)
+				gr := ygo.Generate(lang, text, out, ygo.Options{Fuel: fuel})
+				os.Remove(out)
+				w.Count("generator_acceptances_checked", 1)
+				if gr.Err != nil || gr.Panic != "" {
+					w.Violate("C12|usable-grammar-refused-by-generator|"+lang+"|"+key, fmt.Sprintf("usable-grammar-refused: grammar [%s] is well-formed and ParseAndBuild accepts it, but `generate %s` refuses it: %v %s", key, lang, gr.Err, gr.Panic), c, detail)
+					return
+				}
+			}
 		}
 		return
 	}
